@@ -77,11 +77,6 @@ H("sendbuf_poll_transmit_new", ["C01"], "quick", "connection::send_buffer::poll_
 H("sendbuf_accessors", ["C01"], "quick", "connection::send_buffer::accessors",
   [("offset", "u64"), ("unsent", "u64"), ("unacked_len", "usize")], 6, ["reached"],
   ["SendBuffer::offset", "SendBuffer::is_fully_acked", "SendBuffer::has_unsent_data", "SendBuffer::unacked"], "all u64 states")
-H("sendbuf_poll_transmit_retransmit", ["C01"], "thorough", "connection::send_buffer::poll_transmit_retransmit",
-  [("offset", "u64"), ("unsent", "u64"), ("lo", "u64"), ("hi", "u64"), ("max_len", "usize")], 12,
-  ["whole range", "split range"], ["SendBuffer::retransmit", "SendBuffer::poll_transmit", "RangeSet::insert", "RangeSet::pop_min"],
-  "one lost range lo<hi<=unsent<=offset<2^62, 17 <= max_len <= 2^16", heavy=True)
-
 # ------------------------------------------------------------------ streams/send.rs (C05.b, C11.a)
 H("send_write", ["C05", "C11"], "quick", "connection::streams::send::write",
   [("kind", "u8"), ("stopped", "bool"), ("stop_code", "u64"), ("max_data", "u64"), ("offset", "u64"), ("limit", "u64"), ("src_len", "usize")], 6,
@@ -640,3 +635,6 @@ H("streams_stream_freed_native", ["C11"], "replay-only", "connection::streams::s
 H("streams_sendstream_reset_native", ["C05"], "replay-only", "connection::streams::sendstream_reset_native",
   [("written", "u8"), ("other_data_sent", "u16")], 4, [],
   ["SendStream::reset"], "native replay body of E2 query e2_sendstream_reset")
+H("sendbuf_poll_transmit_retransmit_native", ["C01"], "replay-only", "connection::send_buffer::poll_transmit_native",
+  [("offset", "u64"), ("unsent", "u64"), ("max_len", "usize"), ("has_range", "bool"), ("lo", "u64"), ("hi", "u64")], 4, [],
+  ["SendBuffer::poll_transmit"], "native replay body of E2 query e2_sendbuf_poll_transmit")
